@@ -10,6 +10,7 @@ import (
 	"verif/internal/exact"
 	"verif/internal/gen"
 	"verif/internal/h"
+	"verif/internal/refmodel"
 )
 
 // C10 — planar area, centroid, length and distance equal their exact values.
@@ -374,6 +375,34 @@ func init() {
 							}
 						}
 					}
+					// a bound is the rectangle it denotes: as a member (also as the only surface of a nested collection) it counts
+					// exactly like that rectangle written as a polygon
+					{
+						x0, y0 := bx+float64(r.Range(-50, 50)), by+float64(r.Range(-50, 50))
+						bd := orb.Bound{Min: orb.Point{x0, y0}, Max: orb.Point{x0 + float64(r.Range(1, 9)), y0 + float64(r.Range(1, 9))}}
+						rect := orb.Polygon{refmodel.BoundRing(bd)}
+						mk := func(surface orb.Geometry) []orb.Geometry {
+							return []orb.Geometry{
+								orb.Collection{surface, cloneMP(mp)},
+								orb.Collection{orb.Collection{surface, line}, cloneMP(mp)},
+								orb.Collection{orb.Point{bx, by}, orb.Collection{orb.Collection{surface}}, clonePoly(mp[0])},
+								orb.Collection{orb.Collection{line, surface}},
+							}
+						}
+						withBound, withRect := mk(bd), mk(rect)
+						for i := range withBound {
+							bc, ba := planar.CentroidArea(withBound[i])
+							rc, ra := planar.CentroidArea(withRect[i])
+							c.Evals(2)
+							_, sc := extentOf(models[0][0])
+							if !relClose(ba, ra, 1e-12, 0) || !relClose(planar.Area(withBound[i]), ra, 1e-12, 0) || !(math.Abs(bc[0]-rc[0]) <= 1e-9*(sc+sz) && math.Abs(bc[1]-rc[1]) <= 1e-9*(sc+sz)) {
+								c.Fail("", "a bound inside a collection does not count like the rectangle it denotes", map[string]interface{}{"collection": sv(withBound[i]), "area": ba, "centroid": sv(bc), "area_with_the_rectangle_as_polygon": ra, "centroid_with_the_rectangle_as_polygon": sv(rc)})
+							}
+						}
+						if a := planar.Area(bd); a != (bd.Max[0]-bd.Min[0])*(bd.Max[1]-bd.Min[1]) {
+							c.Fail("", "planar.Area(bound) is not width x height", map[string]interface{}{"bound": sv(bd), "got": a})
+						}
+					}
 					// members without area (an empty polygon, a ring collapsed to a point or to two points, an outer ring cancelled
 					// by an identical hole) weigh nothing, wherever they stand
 					{
@@ -396,8 +425,13 @@ func init() {
 							if !relClose(ga, baseA, 1e-12, 0) || !(math.Abs(gc[0]-baseC[0]) <= 1e-9*(sc+sz) && math.Abs(gc[1]-baseC[1]) <= 1e-9*(sc+sz)) {
 								c.Fail("", "a member without area changes the area or centroid of a multi-polygon", map[string]interface{}{"multipolygon": sv(with), "position": pos, "got_centroid": sv(gc), "got_area": ga, "want_centroid": sv(baseC), "want_area": baseA})
 							}
-							if ca := planar.Area(orb.Collection{clonePoly(z), cloneMP(mp)}); !relClose(ca, baseA, 1e-12, 0) {
-								c.Fail("", "a member without area changes the area of a collection", map[string]interface{}{"member": sv(z), "got": ca, "want": baseA})
+							zc := orb.Collection{clonePoly(z), cloneMP(mp)}
+							if r.Bool() {
+								zc = orb.Collection{cloneMP(mp), clonePoly(z), orb.Collection{clonePoly(zero[r.Intn(len(zero))])}}
+							}
+							cc, ca := planar.CentroidArea(zc)
+							if !relClose(ca, baseA, 1e-12, 0) || !relClose(planar.Area(zc), baseA, 1e-12, 0) || !(math.Abs(cc[0]-baseC[0]) <= 1e-9*(sc+sz) && math.Abs(cc[1]-baseC[1]) <= 1e-9*(sc+sz)) {
+								c.Fail("", "a member without area changes the area or centroid of a collection", map[string]interface{}{"collection": sv(zc), "got_centroid": sv(cc), "got_area": ca, "want_centroid": sv(baseC), "want_area": baseA})
 							}
 						}
 					}
